@@ -405,6 +405,43 @@ func checkC15(c FoldCase) (f *report.Failure, nodes int, distinctOps int) {
 		if last := tr.log[len(tr.log)-1]; out != last.result {
 			return report.Failf("blank-root", "Render returned %q, the root call returned %q", out, last.result), nodes, distinctOps
 		}
+	case "constant-leaves":
+		// README-style placeholder driver: every leaf function returns the same text.
+		// The function of each LIST node must still receive one rendered item per list
+		// value (the fold hands the rendered children to the function; it does not
+		// compare, merge or drop them)
+		if per[expr.List] == 0 {
+			return nil, nodes, distinctOps
+		}
+		tr := &tracer{}
+		m := tr.fullMap()
+		for _, lo := range []expr.Operator{expr.Literal, expr.Wild, expr.Regexp} {
+			m[lo] = func(l, r string) (string, error) { return "$v", nil }
+		}
+		var got []int
+		m[expr.List] = func(l, r string) (string, error) {
+			got = append(got, strings.Count(l, "$v")+strings.Count(r, "$v"))
+			return "[" + l + "]", nil
+		}
+		out, err := render(m, e, c.Embed)
+		if err != nil {
+			return report.Failf("constant-leaves-error", "Render failed although every operator has a function (the leaf functions all return $v): %v", err), nodes, distinctOps
+		}
+		var all []*expr.Expression
+		collectNodes(e, &all)
+		var want []int
+		for _, n := range all {
+			if n.Op == expr.List {
+				if items, ok := n.Left.([]*expr.Expression); ok {
+					want = append(want, len(items))
+				}
+			}
+		}
+		sort.Ints(got)
+		sort.Ints(want)
+		if fmt.Sprint(got) != fmt.Sprint(want) {
+			return report.Failf("list-items-dropped", "tree %#v: its LIST nodes hold %v values; with leaf functions that all return $v the LIST functions received %v rendered items (output %s)", e, want, got, out), nodes, distinctOps
+		}
 	case "undefined-node":
 		// one node of the tree (the (Op mod nodes)-th in pre-order) becomes the zero
 		// Expression: its operator, Undefined, has a function in no map, so Render has to
@@ -471,7 +508,7 @@ func TestC15(t *testing.T) {
 	cfg := report.Load()
 	st := report.New("C15", cfg)
 	defer st.Finish(t)
-	st.Rule("trees: rapid query trees over every operator (incl. fuzzy/boost, lists, ranges, field groups) turned into expressions through the constructors, plus hand-built trees that pass Validate; render-function maps: a tracing map (every operator's function tags its output with a unique call id and logs its arguments), Shared with exactly one operator overridden, the tracing map / Shared with one operator removed or failing - for every operator. Oracle: the tracing fold lays the call log over the tree (one call per node, operator by operator, children before parents, each argument is the child's recorded result in at most one pair of parentheses, containers hold their children's results in order, Render returns the root call's result); an override changes the output only at nodes of that operator; a missing function gives an error and an empty string iff the tree contains that operator; a tree in which any one node was replaced by the zero Expression (operator Undefined, registered nowhere) gives an error and an empty string under every map; ToPostgres / ToParameterizedPostgres fail on every query with ~ or ^. Non-trivial = tree with >= 3 nodes and >= 2 distinct operators under a map that differs from Shared; distinct by (tree shape, mode, operator).")
+	st.Rule("trees: rapid query trees over every operator (incl. fuzzy/boost, lists, ranges, field groups) turned into expressions through the constructors, plus hand-built trees that pass Validate; render-function maps: a tracing map (every operator's function tags its output with a unique call id and logs its arguments), Shared with exactly one operator overridden, the tracing map / Shared with one operator removed or failing - for every operator. Oracle: the tracing fold lays the call log over the tree (one call per node, operator by operator, children before parents, each argument is the child's recorded result in at most one pair of parentheses, containers hold their children's results in order, Render returns the root call's result); an override changes the output only at nodes of that operator; a missing function gives an error and an empty string iff the tree contains that operator; a tree in which any one node was replaced by the zero Expression (operator Undefined, registered nowhere) gives an error and an empty string under every map; with leaf functions that all return the same text every LIST function still receives one rendered item per list value; ToPostgres / ToParameterizedPostgres fail on every query with ~ or ^. Non-trivial = tree with >= 3 nodes and >= 2 distinct operators under a map that differs from Shared; distinct by (tree shape, mode, operator).")
 	st.Assume("sibling order and exact parenthesis placement are not prescribed", "RenderParam's use of the map is only checked through the fuzzy/boost corollary")
 	regress(t, st, "C15")
 	_ = activeFindings(st, "C15")
@@ -497,7 +534,7 @@ func TestC15(t *testing.T) {
 		}
 		return true
 	}
-	modes := []string{"trace", "override", "remove-traced", "remove-shared", "fail", "stock", "blank", "nil-map", "empty-map", "undefined-node"}
+	modes := []string{"trace", "override", "remove-traced", "remove-shared", "fail", "stock", "blank", "nil-map", "empty-map", "undefined-node", "constant-leaves"}
 
 	// exhaustive: hand-built trees and a fixed set of small generated trees x every mode x every operator
 	leaves := gen.LeafAlphabet(true)
@@ -513,7 +550,7 @@ func TestC15(t *testing.T) {
 	for _, base := range cases {
 		for _, mode := range modes {
 			ops := allOps
-			if mode == "trace" || mode == "stock" || mode == "nil-map" || mode == "empty-map" {
+			if mode == "trace" || mode == "stock" || mode == "nil-map" || mode == "empty-map" || mode == "constant-leaves" {
 				ops = allOps[:1]
 			}
 			for _, op := range ops {
